@@ -11,6 +11,7 @@ import (
 // step (the `bad` label computed by Activation.tla), with actors renamed in order of appearance:
 //
 //	shell-remove-live : from the shell's dial that was refused      stale>remove(s1)>listen(d1)>remove(s2)
+//	                    (refused by a daemon between bind and listen)  bound>remove(s1)
 //	rmsock-other      : from the daemon's own Listen                 listen(d1)>remove(s1)>listen(d2)>rmsock(d1)
 //	close-other       : from the daemon's own RemoveSock             rmsock(d1)>listen(d2)>close(d1)
 //	serve-without-db  : from the lock holder's RemoveSock            rmsock(d1)>listen(d2)>dbfail(d2)
@@ -43,9 +44,13 @@ func signature(init string, steps []step) (class, sig string, at int) {
 		j := last(func(x step) bool { return (x.A == "Dial" || x.A == "RetryDial") && x.S == st.S })
 		if j >= 0 {
 			start = j
-			if init == "stale" && steps[j].Sock == 1 {
+			ino := steps[j].Sock
+			switch {
+			case init == "stale" && ino == 1:
 				prefix = "stale"
-			} else {
+			case ino >= 1 && ino <= len(steps[j].Dpc) && steps[j].Dpc[ino-1] == "bound":
+				prefix = "bound" // refused by a live daemon caught between bind and listen
+			default:
 				prefix = "dead"
 			}
 		}
